@@ -12,7 +12,8 @@ from ..ref import report
 ID = 'C07'
 RULE = ('Generated: rule-conforming antennas in free space, over ideal and real ground, 1..4 sources on distinct '
         'interior / junction / grounded pulses with complex voltages (polar, 1e-3..1e3 V), a complex factor c.  '
-        'Oracle: I(cV) = c I(V) with unchanged impedances and dBi pattern; I(V1..Vn) = sum of I(Vi alone, others '
+        'Oracle: I(cV) = c I(V) with unchanged impedances and dBi pattern (also when a power level 1e-3..1e5 W is '
+        'requested for the field table); I(V1..Vn) = sum of I(Vi alone, others '
         '0 V); Excitation.impedance/power and the parsed SOURCE DATA block equal V/I and Re(V I*)/2 for the '
         'current of the feed pulse named by the reference topology.  Non-trivial = >= 2 sources with different '
         'phases, or a source on a junction or grounded pulse.')
@@ -29,6 +30,7 @@ def case_strategy(draw, big=False):
     ph = draw(st.floats(0, 2 * math.pi))
     mag = draw(gen.logf(1e-3, 1e3))
     case['factor'] = [gen.r6(mag * math.cos(ph)), gen.r6(mag * math.sin(ph))]
+    case['pwr'] = gen.r6(draw(gen.logf(1e-3, 1e5)))
     return case
 
 
@@ -36,8 +38,8 @@ def strategy(tier):
     return case_strategy(big=tier == 'thorough')
 
 
-def pattern(m):
-    m.compute_far_field(build.mm.Angle(5, 20, 5), build.mm.Angle(0, 40, 9))
+def pattern(m, pwr=None):
+    m.compute_far_field(build.mm.Angle(5, 20, 5), build.mm.Angle(0, 40, 9), pwr=pwr, dist=1000.0 if pwr else 0)
     return np.array(m.far_field.gain)
 
 
@@ -122,6 +124,15 @@ def check(case):
         d = np.abs(g1 - g2)[msk].max()
         if d > 1e-6 + 10 * tol:
             fails.append(('homogeneity:pattern', 'dBi pattern changes by %.3g dB when all voltages are multiplied by c' % d))
+        # the dBi pattern is a property of the current distribution: a power level requested for the V/m table
+        # (which rescales the fields like a common voltage factor) leaves it unchanged, too
+        pw = case.get('pwr', 100.0)
+        for mm_, nm in ((m, 'V'), (m2, 'cV')):
+            d = np.abs(g1 - pattern(mm_, pw))[msk].max()
+            if d > 1e-6 + 10 * tol:
+                fails.append(('homogeneity:pattern:requested-power', 'dBi pattern of I(%s) changes by %.3g dB when %g W are '
+                              'requested for the field table' % (nm, d, pw)))
+                break
     else:
         labels.append('net-power<=0')
     # --- superposition
